@@ -25,7 +25,17 @@ func init() {
 func VerifHarness_C09_leaf() {
 	n := verifConc(ndInt("len", 0, verifBound(6, 10)))
 	b := ndBytes("b", n)
-	switch verifConc(ndInt("reader", 0, 5)) {
+	switch verifConc(ndInt("reader", 0, 6)) {
+	case 6:
+		verifCase("FIXUTCTimestamp-every-length")
+		// every length from empty to beyond the longest layout (time.Parse needs concrete text: digits with the
+		// separators of the layouts where the length allows)
+		for l := 0; l <= 32; l++ {
+			t := []byte("20240309-07:05:03.123456789012345")[:l]
+			var ts FIXUTCTimestamp
+			err := ts.Read(t)
+			verifAssert((err == nil) == (l == 17 || l == 21 || l == 24 || l == 27), "timestamp-accepted-exactly-at-the-four-lengths")
+		}
 	case 0:
 		verifCase("atoi")
 		v, err := atoi(b)
